@@ -115,6 +115,35 @@ def run(args):
             core.run_campaign(check, stats, known, n_ex, args.seed*1_000_003+args.shard+7919, args.tier,
                               strategy=strat, source=name)
 
+    # 4. second engine (thorough tier only): coverage-guided fuzzing of the same strategies / oracles with atheris
+    if args.tier == 'thorough' and getattr(check, 'FUZZ_MODULES', None) and not os.environ.get('VF_NO_FUZZ'):
+        import subprocess
+        fz_out = args.out+'.fuzz.json'
+        cmd = [sys.executable, '-m', 'vf.fuzz', '--check', check.ID, '--runs', str(getattr(check, 'FUZZ_RUNS', 4000)),
+               '--seed', str(args.seed*1_000_003+args.shard+1), '--tier', args.tier, '--out', fz_out]
+        try:
+            subprocess.run(cmd, cwd=core.VERIF, env=dict(os.environ), stdout=subprocess.DEVNULL,
+                           stderr=subprocess.DEVNULL, timeout=3600)
+        except subprocess.TimeoutExpired:
+            pass
+        if os.path.exists(fz_out):
+            with open(fz_out) as fp:
+                fz = json.load(fp)
+            if not fz.get('unavailable'):
+                stats.cases += fz['cases']
+                stats.evaluations += fz['evaluations']
+                stats.nontrivial |= set(fz['nontrivial'])
+                for k, v in fz['classes'].items():
+                    stats.classes[k] = stats.classes.get(k, 0)+v
+                for k, v in fz['known_hits'].items():
+                    stats.known_hits[k] = stats.known_hits.get(k, 0)+v
+                for v in fz['violations']:
+                    if not any(v['sig'] == w['sig'] for w in stats.violations):
+                        stats.violations.append(v)
+                stats.extra['atheris_cases'] = fz['cases']
+            else:
+                stats.extra['atheris_unavailable'] = 1
+
     with open(args.out, 'w') as fp:
         json.dump(stats.to_json(), fp, default=str)
     return 0
